@@ -24,11 +24,38 @@ def reader_candidates(o, seed):
             for q in (1, 0, 2):
                 for parsed in (True, False):
                     yield {"data": data.hex(), "cuts": [], "quitonerror": q, "validate": 1, "parsed": parsed, "handler": True}
+    from spec import encoder, refdecode
+    msm = list(refdecode.tables()[2])
+    for i in range(12):
+        ident = rnd.choice(msm)
+        p = encoder.complete_message(ident, rnd, "random")
+        if p is None:
+            continue
+        f = streams.frame(p)
+        for v in (0, 1):
+            for lm in (2, 1):
+                yield {"data": (f + streams.frame(streams.P1005)).hex(), "cuts": [], "quitonerror": 1, "validate": v, "parsed": True,
+                       "handler": True, "labelmsm": lm}
     for i in range(700):
         data = streams.adversarial_stream(rnd) if i % 3 else b"".join(x[1] for x in streams.wellformed_stream(rnd))
         cuts = [rnd.choice([None, None, None, 0, 1, 2, 3, 5]) for _ in range(rnd.randrange(0, 25))] if i % 2 else []
         yield {"data": data.hex(), "cuts": cuts, "quitonerror": rnd.choice([0, 1, 2]), "validate": rnd.choice([1, 1, 0]),
                "parsed": rnd.choice([True, True, False]), "handler": rnd.choice([True, False])}
+
+
+def complete_candidates(o, seed):
+    from spec import streams
+    rnd = random.Random(seed)
+    for i in range(500):
+        items = streams.wellformed_stream(rnd, kinds=("rtcm", "rtcm", "filler", "ubx", "nmea", "noise", "rtcm1"))
+        out = []
+        for k, b, p in items:
+            if k == "rtcm" and rnd.random() < 0.3:
+                out.append(["damaged", streams.damage(b, rnd).hex()])
+            else:
+                out.append([k, b.hex()])
+        yield {"items": out, "quitonerror": rnd.choice([0, 1, 2]), "validate": rnd.choice([1, 1, 0]),
+               "parsed": rnd.choice([True, True, False]), "handler": rnd.choice([True, True, False])}
 
 
 def parse_candidates(o, seed):
@@ -109,7 +136,10 @@ def generic_replay(o, seed):
     if n.endswith("RTCMReader.parse"):
         return try_candidates("parse_static", parse_candidates(o, seed), key=lambda i, r: "parse")
     if "rtcmreader" in n or "ext.Stream" in n:
-        return try_candidates("reader_safety", reader_candidates(o, seed), key=lambda i, r: "reader")
+        r = try_candidates("reader_safety", reader_candidates(o, seed), key=lambda i, r: "reader")
+        if r.get("reproduced"):
+            return r
+        return try_candidates("reader_complete", complete_candidates(o, seed), key=lambda i, r: "reader-complete")
     if n.endswith(".ismsm"):
         return try_candidates("ismsm", header_candidates(o, seed), key=lambda i, r: "ismsm")
     if n.endswith((".identity", "._get_dict", "._do_unknown")):
